@@ -230,15 +230,13 @@ func runMutOnce(c Case) *evid.Failure {
 		return nil
 	}
 	defer w.Close()
-	before := w.Env.Stack.Stats()
+	st := w.Env.Stack.Stats() // the counters are shared pointers: read the values now
+	b0, b1, b2 := st.IP.PacketsDelivered.Value(), st.TCP.ValidSegmentsReceived.Value(), st.UDP.PacketsReceived.Value()
 	for _, f := range c.Frames {
 		w.Inject(f)
 	}
+	reached := st.IP.PacketsDelivered.Value() > b0 || st.TCP.ValidSegmentsReceived.Value() > b1 || st.UDP.PacketsReceived.Value() > b2
 	fail := w.Probe()
-	after := w.Env.Stack.Stats()
-	reached := after.IP.PacketsDelivered.Value()-before.IP.PacketsDelivered.Value() > 0 ||
-		after.TCP.ValidSegmentsReceived.Value()-before.TCP.ValidSegmentsReceived.Value() > 0 ||
-		after.UDP.PacketsReceived.Value()-before.UDP.PacketsReceived.Value() > 0
 	evid.LabelN("frames", int64(len(c.Frames)))
 	if reached && fail == nil {
 		evid.NonTrivialKey(fmt.Sprintf("%+v", c))
